@@ -221,6 +221,9 @@ SelectData(st, req, ord, rxMode, r, tgt) ==
 (* Transformations and operators available to scenarios (the full          *)
 (* vocabulary is the subject of Transform.tla / Operators.tla).            *)
 (***************************************************************************)
+RECURSIVE HexDecodeE(_)
+HexDecodeE(s) == IF Len(s) < 2 THEN << >> ELSE <<16 * HexVal(s[1]) + HexVal(s[2])>> \o HexDecodeE(SubSeq(s, 3, Len(s)))
+HexOk(s) == Len(s) % 2 = 0 /\ \A i \in 1..Len(s) : IsHex(s[i])
 Tf1(name, s) ==
   CASE name = "lowercase"          -> Lower(s)
     [] name = "uppercase"          -> Upper(s)
@@ -230,6 +233,7 @@ Tf1(name, s) ==
     [] name = "compressWhitespace" -> CompressWhitespace(s)
     [] name = "removeNulls"        -> RemoveNulls(s)
     [] name = "hexEncode"          -> HexEncode(s)
+    [] name = "hexDecode"          -> IF HexOk(s) THEN HexDecodeE(s) ELSE s    \* a step that reports an error leaves the value as it was
     [] name = "none"               -> s
     [] OTHER                       -> s
 RECURSIVE Tf(_, _)
